@@ -1,5 +1,5 @@
 (* P19b stage 3, part 10: the hypotheses of build_values_clean / history_values_clean are satisfiable, and the conclusion is what the
-   computation shows: a six-rule set with a branch and a must-follow input, five builds with changes of the environment in between. *)
+   computation shows: a six-rule set with a branch, a must-follow input and a single-use input, five builds with changes of the environment in between. *)
 From LLB Require Import Engine.Rules Engine.Spec Engine.SpecInv1 Engine.SpecC01 Engine.Exec Engine.Impl Engine.ImplProofs Engine.ImplProofsExamples
   Engine.ImplVal7 Engine.ImplInc1 Engine.ImplInc9.
 From Coq Require Import Arith Lia.
@@ -11,20 +11,18 @@ Proof.
   inversion Hm as [|x l Hx Hl]. subst. destruct (N.eqb k k'); auto.
 Qed.
 
-(* inputs 0 1; 2 = f(0,1); 3 = f(2), must follow 1, branches on 2 to 0 or 1; 4 = f(3,2); 5 = f(4) *)
+(* inputs 0 1; 2 = f(0,1); 3 = f(2), must follow 1, branches on 2 to 0 or 1; 4 = f(3,2) with the single-use input 1; 5 = f(4) *)
 Definition T7 : list (key * rule) :=
   [(0, mkRule 0 true [] [] [] None []); (1, mkRule 0 true [] [] [] None []);
    (2, mkRule 1 false [0; 1] [] [] None []);
    (3, mkRule 1 false [2] [] [1] (Some (0%nat, [0], [1])) []);
-   (4, mkRule 2 false [3; 2] [] [] None []);
+   (4, mkRule 2 false [3; 2] [1] [] None []);
    (5, mkRule 3 false [4] [] [] None [])].
 Definition R7 : key -> rule := rules_of T7.
 
 Example R7_ranked : wf_rank R7 rank6. Proof. apply (wf_rank_b_sound T7 rank6). vm_compute. reflexivity. Qed.
 Example R7_nodisc : forall k, r_disc (R7 k) = [].
 Proof. apply (rules_of_all (fun r => r_disc r = [])); [reflexivity|]. repeat constructor. Qed.
-Example R7_nosingle : forall k, r_single (R7 k) = [].
-Proof. apply (rules_of_all (fun r => r_single r = [])); [reflexivity|]. repeat constructor. Qed.
 Example ord0_ok : forall k, In RReq (ord0 k). Proof. intros k. cbn. auto. Qed.
 
 Definition E7a : key -> N := env_of [(0, 1); (1, 2)].
@@ -45,7 +43,7 @@ Proof. intros b Hb. unfold H7 in Hb. cbn [In] in Hb. repeat (destruct Hb as [Hb|
 (* the theorem applies ... *)
 Example history7_clean : vals7 = map (fun b => cv R7 (bs_env b) mixF 5 (bs_root b)) H7 /\ HInv R7 mixF end7.
 Proof.
-  pose proof (history_values_clean R7 mixF rank6 ord0 all_sync R7_ranked R7_nodisc R7_nosingle ord0_ok 5 H7 init_istate end7 vals7 (HInv_init R7 mixF)) as H.
+  pose proof (history_values_clean R7 mixF rank6 ord0 all_sync R7_ranked R7_nodisc ord0_ok 5 H7 init_istate end7 vals7 (HInv_init R7 mixF)) as H.
   specialize (H run7_eq). specialize (H H7_ranks). exact H.
 Qed.
 
